@@ -140,50 +140,56 @@ def removeNth {α} : List α → Nat → List α
   | _ :: xs, 0 => xs
   | x :: xs, n + 1 => x :: removeNth xs n
 
-/-- Search for an interleaving: each pending action is placed somewhere in the observed sequence of
+/-- equality of states up to the eviction counters (whose ambiguity is covered by the slack fields) -/
+def sameModStats (a b : State) : Bool :=
+  a.now == b.now && a.m == b.m && a.maximum == b.maximum && a.inflight == b.inflight &&
+  a.stats.hits == b.stats.hits && a.stats.misses == b.stats.misses &&
+  a.stats.loadOk == b.stats.loadOk && a.stats.loadFail == b.stats.loadFail
+
+/-- Search for the interleavings: each pending action is placed somewhere in the observed sequence of
     atomic deletion events, its own predicted events matching the observed ones at that place, and
     every other observed event is an automatic removal the Spec justifies at that moment.
-    `resCheck i toks` tells whether action number `i`'s result tokens are acceptable. -/
-def resolve (cfg : Cfg) (fuel : Nat) (s : State) (pend : List (PAct × Option (List String)))
-    (evs : List Event) : Option State :=
+    Returns every distinct resulting state (the order of an operation's atomic step and a sweep of the
+    same key is not observable, and the two orders may leave different states). -/
+def resolveAll (cfg : Cfg) (fuel : Nat) (s : State) (pend : List (PAct × Option (List String)))
+    (evs : List Event) : List State :=
   match fuel with
-  | 0 => none
+  | 0 => []
   | fuel + 1 =>
-    if pend.isEmpty && evs.isEmpty then some s else
+    if pend.isEmpty && evs.isEmpty then [s] else
     -- option 1: perform some pending action here
-    let tryAct : Option State := Id.run do
-      let mut found : Option State := none
+    let viaAct : List State := Id.run do
+      let mut acc : List State := []
       for i in [0:pend.length] do
-        if found.isNone then
-          match pend[i]? with
-          | none => pure ()
-          | some (p, expect) =>
-            let (s', toks, own) := applyPAct cfg s p
-            -- own removals of expired entries are indistinguishable from a sweep just before the operation
-            let deadW := (own.filter (fun e => e.cause == .expiration)).map (fun e => ((s.phys e.key).map (·.weight)).getD 0)
-            let s' := { s' with stats := { s'.stats with evictionsSlack := s'.stats.evictionsSlack + deadW.length,
-                                                         evictionWeightSlack := s'.stats.evictionWeightSlack + deadW.foldl (· + ·) 0 } }
-            let resOk := match expect, toks with
-              | some ex, some t => normToks ex == normToks t
-              | _, _ => true
-            -- `invalAll` reports its events in table order: compare as multisets
-            let n := own.length
-            let evOk := match p with
-              | .invalAll => eventsPermOf own (evs.take n)
-              | _ => own == evs.take n
-            if resOk && evOk && n ≤ evs.length then
-              found := resolve cfg fuel s' (removeNth pend i) (evs.drop n)
-      return found
-    match tryAct with
-    | some r => some r
-    | none =>
-      -- option 2: the next observed event is an automatic removal
+        match pend[i]? with
+        | none => pure ()
+        | some (p, expect) =>
+          let (s', toks, own) := applyPAct cfg s p
+          -- own removals of expired entries are indistinguishable from a sweep just before the operation
+          let deadW := (own.filter (fun e => e.cause == .expiration)).map (fun e => ((s.phys e.key).map (·.weight)).getD 0)
+          let s' := { s' with stats := { s'.stats with evictionsSlack := s'.stats.evictionsSlack + deadW.length,
+                                                       evictionWeightSlack := s'.stats.evictionWeightSlack + deadW.foldl (· + ·) 0 } }
+          let resOk := match expect, toks with
+            | some ex, some t => normToks ex == normToks t
+            | _, _ => true
+          -- `invalAll` reports its events in table order: compare as multisets
+          let n := own.length
+          let evOk := match p with
+            | .invalAll => eventsPermOf own (evs.take n)
+            | _ => own == evs.take n
+          if resOk && evOk && n ≤ evs.length then
+            for r in resolveAll cfg fuel s' (removeNth pend i) (evs.drop n) do
+              if !(acc.any (sameModStats r)) && acc.length < 16 then acc := acc ++ [r]
+      return acc
+    -- option 2: the next observed event is an automatic removal
+    let viaEvict : List State :=
       match evs with
-      | [] => none
+      | [] => []
       | e :: rest =>
         match evict cfg s e with
-        | some s' => resolve cfg fuel s' pend rest
-        | none => none
+        | some s' => resolveAll cfg fuel s' pend rest
+        | none => []
+    viaAct ++ viaEvict.filter (fun r => !(viaAct.any (sameModStats r)))
 
 /-! ### Checker state -/
 
@@ -241,6 +247,13 @@ structure CS where
   nEvictions : Nat := 0
   nDeadTouches : Nat := 0      -- operations applied to an expired-unswept key
   nLoads : Nat := 0
+  /-- which explanation to follow when several are consistent (the driver explores all of them) -/
+  choice : Nat := 0
+  solCount : Nat := 1
+  /-- classification aids for a failing line -/
+  sawNestedWrite : Bool := false     -- a write was executed from inside a loader (C09 scenarios)
+  dirty : List Nat := []             -- deferred executor: keys written since maintenance last ran
+  k1risk : Bool := false             -- deferred executor: a key was rewritten before its first write event was replayed
   deriving Repr, Inhabited
 
 abbrev M := ExceptT String (StateM CS)
@@ -265,10 +278,11 @@ def accountEvents (evs : List (Bool × Event)) : M (List Event) := do
 
 def resolveOrFail (pend : List (PAct × Option (List String))) (evs : List Event) (what : String) : M Unit := do
   let c ← get
-  match resolve c.cfg (2 * (pend.length + evs.length) + 4) c.s pend evs with
+  let sols := resolveAll c.cfg (2 * (pend.length + evs.length) + 4) c.s pend evs
+  match (if c.choice < sols.length then sols[c.choice]? else sols.head?) with
   | some s' =>
       let nEv := evs.length
-      modify fun c => { c with s := s', nEvictions := c.nEvictions + nEv }
+      modify fun c => { c with s := s', nEvictions := c.nEvictions + nEv, solCount := max c.solCount sols.length }
   | none =>
       -- explain: expected tokens of the first pending action in the current state
       let hint := match pend.head? with
@@ -296,6 +310,14 @@ def countDead (k : Nat) : M Unit := do
   match c.s.phys k with
   | some e => if !e.liveAt c.s.now then modify fun c => { c with nDeadTouches := c.nDeadTouches + 1 }
   | none => pure ()
+
+def markWrite (k : Nat) : M Unit := modify fun c =>
+  let c := if !c.frames.isEmpty then { c with sawNestedWrite := true } else c
+  if c.deferred then
+    { c with k1risk := c.k1risk || c.dirty.contains k, dirty := k :: c.dirty }
+  else c
+
+def maintenanceRan : M Unit := modify fun c => { c with dirty := [] }
 
 /-- at the end of a top-level operation: channel deliveries and (sync executor) OnDeletion completeness -/
 def endOfTopLevel (chansTok : Option String) : M Unit := do
@@ -332,10 +354,10 @@ def simpleOp (l : Line) : M Unit := do
   let expectRes := some l.res
   match l.toks with
   | ["set", k, v] =>
-      let k ← tokNat k; let v ← tokNat v; countDead k
+      let k ← tokNat k; let v ← tokNat v; countDead k; markWrite k
       resolveOrFail [(.set k v, expectRes)] atomics "set"
   | ["sia", k, v] =>
-      let k ← tokNat k; let v ← tokNat v; countDead k
+      let k ← tokNat k; let v ← tokNat v; countDead k; markWrite k
       resolveOrFail [(.sia k v, expectRes)] atomics "setifabsent"
   | ["get", k] =>
       let k ← tokNat k; countDead k
@@ -355,12 +377,12 @@ def simpleOp (l : Line) : M Unit := do
       if outToks o != l.res then fail s!"GetEntryQuietly {k}: implementation returned {l.res}, spec {outToks o}"
       resolveOrFail [] atomics "qentry"
   | ["compute", k, f, a] =>
-      let k ← tokNat k; countDead k
+      let k ← tokNat k; countDead k; markWrite k
       let f ← (match parseAct f with | .ok x => pure x | .error e => fail e)
       let a ← (match parseAct a with | .ok x => pure x | .error e => fail e)
       resolveOrFail [(.computeStep k f a true, expectRes)] atomics "compute"
   | ["cia", k, g] =>
-      let k ← tokNat k; countDead k
+      let k ← tokNat k; countDead k; markWrite k
       let g ← (match parseAct g with | .ok x => pure x | .error e => fail e)
       match lookup cfg c.s k with
       | (s', some e) =>
@@ -373,7 +395,7 @@ def simpleOp (l : Line) : M Unit := do
           -- the inner compute sees the key as found only if it is live, which the lookup just excluded
           resolveOrFail [(.computeStep k .cancel g false, expectRes)] atomics "cia"
   | ["cip", k, h] =>
-      let k ← tokNat k; countDead k
+      let k ← tokNat k; countDead k; markWrite k
       let h ← (match parseAct h with | .ok x => pure x | .error e => fail e)
       match lookup cfg c.s k with
       | (s', none) =>
@@ -385,7 +407,7 @@ def simpleOp (l : Line) : M Unit := do
           setS s'
           resolveOrFail [(.computeStep k h .cancel false, expectRes)] atomics "cip"
   | ["inval", k] =>
-      let k ← tokNat k; countDead k
+      let k ← tokNat k; countDead k; markWrite k
       resolveOrFail [(.inval k, expectRes)] atomics "invalidate"
   | ["invalall"] =>
       resolveOrFail [(.invalAll, none)] atomics "invalidateall"
@@ -410,7 +432,7 @@ def simpleOp (l : Line) : M Unit := do
       let d ← tokInt d
       setS (advance c.s d)
       resolveOrFail [] atomics "adv"
-  | ["cleanup"] => resolveOrFail [] atomics "cleanup"
+  | ["cleanup"] => maintenanceRan; resolveOrFail [] atomics "cleanup"
   | ["all"] => resolveOrFail [(.snapshot "all", expectRes)] atomics "all"
   | ["keys"] => resolveOrFail [(.snapshot "keys", expectRes)] atomics "keys"
   | ["values"] => resolveOrFail [(.snapshot "values", expectRes)] atomics "values"
@@ -426,6 +448,7 @@ def simpleOp (l : Line) : M Unit := do
       if [toString (weightedSize cfg s)] != l.res then fail s!"C05: WeightedSize returned {l.res}, sum of weights present is {weightedSize cfg s}"
   | ["bound"] =>
       -- quiescent size-bound oracle (C04): after maintenance the total weight present is within the maximum
+      maintenanceRan
       resolveOrFail [] atomics "bound"
       let s ← getS
       match s.maximum with
@@ -523,6 +546,7 @@ def beginOp (l : Line) : M Unit := do
           modify fun c => { c with nextRid := rid + 1, queue := c.queue ++ [{ keys := keys, manual := some rid, bulk := true }],
                                    frames := { kind := "bulkrefresh", expect := some [s!"chan#{rid}"] } :: c.frames }
   | ["runexec"] =>
+      maintenanceRan
       modify fun c => { c with frames := { kind := "runexec", expect := some [] } :: c.frames }
   | _ => fail s!"unknown begin {l.toks}"
 
@@ -553,9 +577,11 @@ def callOp (l : Line) : M Unit := do
         | none => match c.queue.head? with
           | some t => some (t, false)
           | none => none
-      let direct := !f.directKeys.isEmpty && !isReload && f.laterTask.isNone &&
-                    (c.queue.isEmpty || f.kind == "load" || f.kind == "bulkget") &&
-                    (c.queue.isEmpty)
+      -- executor tasks run inside the operation (synchronous executor) or inside `runexec` (deferred executor);
+      -- anything else is the calling goroutine's own load
+      let tasksRunHere := !c.deferred || f.kind == "runexec"
+      let fromTask := if tasksRunHere then fromTask else none
+      let direct := !f.directKeys.isEmpty && !isReload && fromTask.isNone
       if direct then
         let want := (f.directKeys.mergeSort (· ≤ ·)).map (fun k => (k, (none : Option Nat)))
         if want != givenSorted then fail s!"C10: loader invoked for keys {fmtOld givenSorted}, spec expects exactly the missing keys {fmtOld want}"
@@ -614,6 +640,8 @@ def retOp (l : Line) : M Unit := do
   match f.openCall with
   | none => fail "ret without call"
   | some oc =>
+    for (k, _) in oc.keys do
+      modify fun c => if c.deferred then { c with k1risk := c.k1risk || c.dirty.contains k, dirty := k :: c.dirty } else c
     let c ← get
     match l.toks with
     | [o] =>
@@ -679,7 +707,10 @@ def retOp (l : Line) : M Unit := do
           match f.laterTask with
           | some lt =>
             let mut s := (← get).s
-            for (k, _) in lt.keys do s := s.clearInflight k
+            for (k, _) in lt.keys do
+              let cid := ((lt.cids.find? (·.1 == k)).map (·.2)).getD 0
+              s := (finishCall (← get).cfg s k cid true false .panic).1
+              s := s.clearInflight k
             setS s
           | none => pure ()
           f := { f with laterTask := none, chanAcc := [] }
